@@ -417,6 +417,16 @@ def d5_projections(ctx, mod):
     ctx.check(rule, 'correlators.py:Corr.prune#validation', any('Ntrunc >= basematrix.N' in x for x in g) and any('basematrix.N != self.N' in x for x in g), 'rank and size checks', 'guards %s' % g)
 
 
+def d6b_general_eig(ctx, rule='C16-D6'):
+    """the reduced pencil matrix is not symmetric: linalg.eig has to call the general eigenvalue routine"""
+    lin = ctx.repo.mod('linalg')
+    f = lin.func('eig')
+    calls = [lin.dotted(c.func) or '' for c in walk(f, skip_nested_defs=False) if isinstance(c, ast.Call) and '.linalg.' in (lin.dotted(c.func) or '')]
+    ok = any(c.endswith('linalg.eig') or c.endswith('linalg.eigvals') for c in calls) and not any(c.endswith(('linalg.eigh', 'linalg.eigvalsh')) for c in calls)
+    ctx.check(rule, 'linalg.py:eig#general-solver', ok, 'eigenvalues of a general (non-symmetric) matrix',
+              'linalg.eig calls %s: a symmetric solver reads one triangle only, the matrix pencil Z = pinv(Y1) Y2 is not symmetric and its eigenvalues (the energies) come out wrong' % calls, lin.loc(f))
+
+
 def d6_pencil(ctx):
     rule = 'C16-D6'
     m = ctx.repo.mod('mpm')
@@ -484,6 +494,7 @@ def run(ctx):
     ctx.guarded('C16-D3', 'correlators.py:Corr.GEVP@method', d7_method_choice, ctx, mod)
     ctx.guarded('C16-D5', 'correlators.py@projections', d5_projections, ctx, mod)
     ctx.guarded('C16-D6', 'mpm.py', d6_pencil, ctx)
+    ctx.guarded('C16-D6', 'linalg.py:eig', d6b_general_eig, ctx)
 
 
 SELFTEST = [
